@@ -372,13 +372,13 @@ def Comp.isEmptyC (n : Nat) : Comp → Bool
 def judgeReduce (ln : Nat) (what : String) (raw obs : PState) : M Unit := do
   let pol := (← get).policy
   if raw.n != obs.n then bad ln s!"{what}: space dimension {obs.n}, expected {raw.n}"
-  else if (pol == "smash" || pol == "constraints") && (obs.c1.isEmptyC obs.n != obs.c2.isEmptyC obs.n) then
-    bad ln s!"smash_propagation: after the {pol} reduction exactly one component is empty (Smash_Reduction propagates emptiness)"
   else
     match compSubset raw.n obs.c1 raw.c1, compSubset raw.n obs.c2 raw.c2 with
     | some true, some true =>
       if ← verdictIncl ln s!"{what}: the reduction lost a common point of the components" (meetSubset raw obs) then
-        match raw.meet?, obs.meet? with
+        if (pol == "smash" || pol == "constraints") && (obs.c1.isEmptyC obs.n != obs.c2.isEmptyC obs.n) then
+          bad ln s!"smash_propagation: after the {pol} reduction exactly one component is empty (Smash_Reduction propagates emptiness)"
+        else match raw.meet?, obs.meet? with
         | some _, some _ => ok ln
         | _, _ => IO.println s!"ok {ln} sampled"; modify fun st => { st with nOk := st.nOk + 1 }
     | some false, _ => bad ln s!"{what}: component 1 is not contained in the component it was reduced from"
